@@ -20,6 +20,7 @@ import traceback
 
 VERIF = os.path.dirname(os.path.dirname(os.path.abspath(__file__)))
 REPO = os.environ.get("PYVC_REPO", "/repo")
+OUT = os.environ.get("PYVC_OUT", VERIF)  # evidence/ and replays/ go here (scratch runs against seeded changes use a temp dir)
 if VERIF not in sys.path:
     sys.path.insert(0, VERIF)
 
@@ -69,7 +70,7 @@ def _conf_worker(arg):
 
 def fallback_solve(smt2, timeout_s=60):
     """Try the other installed solvers on an obligation z3 5.1 left open. Returns (result, backend)."""
-    with tempfile.NamedTemporaryFile("w", suffix=".smt2", delete=False, dir=os.path.join(VERIF, "evidence")) as f:
+    with tempfile.NamedTemporaryFile("w", suffix=".smt2", delete=False, dir=os.path.join(OUT, "evidence")) as f:
         f.write(smt2)
         fn = f.name
     try:
@@ -126,8 +127,8 @@ def main(argv=None):
     prop = a.prop
     seed = int(os.environ.get("VERIF_SEED", "0") or 0)
     t0 = time.time()
-    os.makedirs(os.path.join(VERIF, "evidence"), exist_ok=True)
-    os.makedirs(os.path.join(VERIF, "replays"), exist_ok=True)
+    os.makedirs(os.path.join(OUT, "evidence"), exist_ok=True)
+    os.makedirs(os.path.join(OUT, "replays"), exist_ok=True)
     try:
         from contracts import index
         _LOADER = build_loader()
@@ -308,7 +309,7 @@ def main(argv=None):
         # a proof-level claim needs every obligation discharged; otherwise report honestly at level "other"
         if violations or undecided or errors or known_hits:
             ev["coverage"]["note"] = "not all obligations discharged on this run; see undecided / violations / known findings"
-    with open(os.path.join(VERIF, "evidence", f"{prop}.json"), "w") as f:
+    with open(os.path.join(OUT, "evidence", f"{prop}.json"), "w") as f:
         json.dump(ev, f, indent=1, default=str)
 
     for n, e in errors:
@@ -347,7 +348,7 @@ def _match_known(known, prop, oset_name, obligation):
 
 
 def _write_replay(prop, rj, name, ob, seed):
-    d = os.path.join(VERIF, "replays", prop)
+    d = os.path.join(OUT, "replays", prop)
     os.makedirs(d, exist_ok=True)
     slug = hashlib.sha1(f"{rj['name']}::{name}".encode()).hexdigest()[:10]
     path = os.path.join(d, f"{slug}.json")
